@@ -326,6 +326,9 @@ func isShareDenom(d string) bool {
 }
 
 func (m *MonC15) AfterBlock(s *Sim, eb *ExecBlock) {
+	if !s.Ledger.BlockOK {
+		return
+	}
 	for i := range s.Ledger.Moves {
 		mv := &s.Ledger.Moves[i]
 		if mv.Kind != "mint" && mv.Kind != "burn" {
